@@ -107,9 +107,14 @@ def run(fn, pkg_dir, target, fault_at=None, keep_lines=False, granularity="line"
                 return local
         return None
 
+    ALLOWED_IN_WINDOW = {"write", "close", "__exit__", "__enter__", "flush", "getattr", "isinstance", "len", "fileno", "append",
+                         "_getframe", "realpath", "fspath", "startswith", "get", "basename", "join", "extract_tb"}
+
     def profiler(frame, event, arg):
         if event == "c_call":
             name = getattr(arg, "__name__", "")
+            if state["open"] and name not in ALLOWED_IN_WINDOW and os.path.realpath(frame.f_code.co_filename).startswith(pkg_dir):
+                tr.log.append((state["n"], "call-in-window", "builtin " + name))
             if name == "sign":
                 owner = type(getattr(arg, "__self__", None)).__name__
                 if "PrivateKey" in owner:
